@@ -122,6 +122,8 @@ class Run:
         self.inputs = {}            # name -> value (symbolic inputs of the target, for models)
         self.solver_secs = 0.0
         self.lemma_measure = None
+        self.placeholders = []
+        self.no_feas = False
         self.no_prove = False
         self.notes = []
 
@@ -165,6 +167,11 @@ class Run:
         i = len(self.trace)
         if i < len(self.prefix):
             d = self.prefix[i]
+        elif self.no_feas:
+            # while a recursive spec function is being defined its own symbol has no definition yet,
+            # so no solver-based pruning: take both branches
+            d = True
+            self.pending.append([x for x in self.trace] + [False])
         else:
             can_t = self.feasible(cond)
             can_f = self.feasible(z3.Not(cond))
@@ -206,6 +213,9 @@ class Run:
         else:
             status = 'unknown'
             detail = self.solver.reason_unknown()
+            if DEBUG_DUMP:
+                with open(DEBUG_DUMP + '.unknown', 'w') as fh:
+                    fh.write(self.solver.to_smt2())
         self.solver.pop()
         secs = time.time() - t0
         self.solver_secs += secs
@@ -980,6 +990,17 @@ class Run:
             mi, fn = self.w.spec_defs[sf.name]
             define_spec(self.w, sf.name, mi, fn)
         es = [self.z(a, k) for a, k in zip(args, sf.pkinds)]
+        if sf.name in self.w.spec_macros:
+            # non-recursive spec function: expanded in place (no recursive-function unfolding needed)
+            consts, body = self.w.spec_macros[sf.name]
+            return self.wrap(z3.substitute(body, *zip(consts, es)) if consts else body, sf.rkind)
+        if sf.name in self.w.spec_defining:
+            # the function is being defined right now: its symbol has no definition yet, so solver
+            # checks made while enumerating the paths of the body must see an arbitrary value;
+            # define_spec substitutes the real application back into the finished body
+            p = z3.Const(self.fresh_name('rec_' + sf.name), self.S.sort_of(sf.rkind))
+            self.placeholders.append((p, sf.decl(*es)))
+            return self.wrap(p, sf.rkind)
         return self.wrap(sf.decl(*es), sf.rkind)
 
     def use_lemma(self, name, args):
@@ -1565,15 +1586,28 @@ def define_spec(world, name, mi, fn):
         except ReturnSig as r:
             return r.val
 
-    for run, out in enumerate_paths(world, runner):
-        if out[0] == 'cut':
-            continue
-        if out[0] == 'raise':
-            raise OutOfReach('spec function %s raises %s' % (name, out[1]))
-        results.append((z3.And(*run.pc) if run.pc else z3.BoolVal(True), run.z(out[1], sf.rkind)))
+    def unplace(run, e):
+        for p, app in reversed(run.placeholders):
+            e = z3.substitute(e, (p, app))
+        return e
+
+    world.spec_defining.add(name)
+    try:
+        for run, out in enumerate_paths(world, runner):
+            if out[0] == 'cut':
+                continue
+            if out[0] == 'raise':
+                raise OutOfReach('spec function %s raises %s' % (name, out[1]))
+            results.append((unplace(run, z3.And(*run.pc) if run.pc else z3.BoolVal(True)),
+                            unplace(run, run.z(out[1], sf.rkind))))
+    finally:
+        world.spec_defining.discard(name)
     if not results:
         raise OutOfReach('spec function %s has no path' % name)
     body = results[-1][1]
     for cond, val in reversed(results[:-1]):
         body = z3.If(cond, val, body)
-    z3.RecAddDefinition(sf.decl, consts, body)
+    if world.spec_is_recursive(name):
+        z3.RecAddDefinition(sf.decl, consts, body)
+    else:
+        world.spec_macros[name] = (consts, z3.simplify(body))
